@@ -35,7 +35,7 @@ func CreateUE(imsi string, ueNumber int, K string, OPC string, OP string) *tglib
 	}
 
 	ranUeNgapId := (parsedIMSI + ueNumber) % 1e4
-	supi := "imsi-" + imsi
+	supi := fmt.Sprintf("imsi-%0*d", len(imsi), parsedIMSI+ueNumber)
 
 	ue := tglib.NewRanUeContext(supi,
 		int64(ranUeNgapId),
